@@ -87,16 +87,42 @@ def text_class(exported):
                 defined.add(m.group(1))
     used = set(re.findall(r"(problog_cv_[A-Za-z0-9_]*)", exported))
     cyc = "problog_cv_" in exported
-    if cyc:
-        # after cycle breaking: any body atom (renamed or not) that no exported clause defines
-        for line in exported.splitlines():
-            if ":-" in line:
-                body = line.split(":-", 1)[1]
-                for m in re.finditer(r"(?<![A-Za-z0-9_])([a-z][A-Za-z0-9_]*)\s*(?=[(,.]|$)", body):
-                    if m.group(1) not in ("true", "fail", "false", "not", "multi"):
-                        used.add(m.group(1))
+    # any atom in a clause body, a query or an evidence statement (renamed by cycle breaking, internal such as body_N / choice, or a
+    # plain atom all of whose clauses were renamed) that no exported clause defines
+    for line in exported.splitlines():
+        body = None
+        if ":-" in line:
+            body = line.split(":-", 1)[1]
+        else:
+            m0 = re.match(r"^(?:query|evidence)\((.*)\)\.$", line.strip())
+            if m0:
+                body = m0.group(1) + "."
+        if body is None:
+            continue
+        depth = 0
+        tok = ""
+        names = []
+        for ch in body + ",":
+            if ch == "(":
+                if depth == 0:
+                    names.append(tok.strip())
+                depth += 1
+                tok = ""
+            elif ch == ")":
+                depth -= 1
+                tok = ""
+            elif ch in ",." and depth == 0:
+                if tok.strip():
+                    names.append(tok.strip())
+                tok = ""
+            elif depth == 0:
+                tok += ch
+        for nm in names:
+            nm = nm.replace("\\+", "").strip()
+            if re.match(r"^[a-z][A-Za-z0-9_]*$", nm) and nm not in ("true", "fail", "false", "not"):
+                used.add(nm)
     if any(u not in defined for u in used):
-        tags.append("cycle-broken-name-undefined")
+        tags.append("cycle-broken-name-undefined" if cyc else "internal-name-undefined")
     # copies of one atom (its own name and problog_cv_<x>_cb_<k>): a copy that lacks the probabilistic clause another copy has
     copies = {}
     for line in exported.splitlines():
